@@ -981,6 +981,12 @@ def records(report, db, S):
     n = 0
     for name, sign in sorted(ops.items()):
         fi = db.own_method(vec, name)
+        if fi is None and name in vec.attrs:
+            # bound some other way (functools.partialmethod, an alias): not
+            # followed here
+            raise AnalysisError('Vector.%s is not a plain method: the '
+                                'component-wise rule cannot read it' % name,
+                                vec.node, rel(vec.path))
         if fi is None:
             report.violation(R, 'vector:missing:%s' % name, vec.path,
                              vec.node, vec.qualname, 'Vector lacks %s'
